@@ -382,6 +382,14 @@ pub fn check_main(prop: &str, tier: Tier) -> i32 {
     }
     let replays = vdir.join("replays");
     let _ = std::fs::create_dir_all(&replays);
+    // replay files of earlier runs of this property are stale
+    if let Ok(rd) = std::fs::read_dir(&replays) {
+        for e in rd.flatten() {
+            if e.file_name().to_string_lossy().starts_with(&format!("{prop}-")) {
+                let _ = std::fs::remove_file(e.path());
+            }
+        }
+    }
     let mut skip: Vec<u64> = Vec::new();
     let mut process_viols: Vec<(u64, String)> = Vec::new(); // (idx, what)
     let mut restarts = 0u32;
